@@ -188,7 +188,7 @@ def run(ctx):
     out = core.Outcome()
     out.level = "fault_enumeration"
     base = ctx.seed * 1000003 + 7
-    seeds = [base + i for i in range(ctx.n(30, 1200))]
+    seeds = [base + i for i in range(ctx.n(30, 500))]
     results = core.pmap(work, seeds, chunksize=1)
     extra = core.pmap(work_extra, EXTRA, chunksize=2)
     by_kind = {}
